@@ -59,7 +59,12 @@ template <integral Int, from_integer_options Options = from_integer_options{}>
         }
 
         auto const [quot, rem] = etl::idiv(num, static_cast<Int>(base));
-        auto const digit       = static_cast<char>(etl::abs(rem));
+        auto digit             = static_cast<char>(rem);
+        if constexpr (is_signed_v<Int>) {
+            if (rem < 0) {
+                digit = static_cast<char>(-rem);
+            }
+        }
 
         str[i++] = (digit > 9) ? (digit - 10) + 'a' : digit + '0';
         num      = quot;
